@@ -1,12 +1,11 @@
-// ---- ASSUMED (label A): LehmerMatrix::from, the construction of the update matrix (src/algorithms/gcd/matrix.rs) ----
+// ---- the Lehmer update matrix (src/algorithms/gcd/matrix.rs) ----
 // Signs are implicit (matrix.rs): .4 == true means [ .0 -.1; -.2 .3 ], false means [ -.0 .1; .2 -.3 ].
-// `from(a, b)` for a >= b returns either the identity or a cofactor matrix of a non-empty run of Euclid steps on (a, b):
-// it maps (a, b) exactly (over the integers) to a later pair (c, d) of the remainder sequence (0 <= d <= c <= a, d < b, same gcd),
-// its determinant is +1 / -1 according to .4, its top row is elementwise below its bottom row (every cofactor matrix of
-// k >= 1 Euclid steps has that shape) and its entries do not exceed a. This is the last sentence of property C12 plus the cofactor
-// shape. PROVED in unit lehmer: from_u64 (what `from` calls for operands of at most 64 bits) meets exactly this contract, and
-// `apply` evaluates the signed map modulo 2^BITS. NOT under proof: `from`'s dispatch (bit_len, conversions, prefix shift),
-// from_u64_prefix / from_u128_prefix (Jebelean's exactness conditions), compose. Kani checks gcd by enumeration at 3-4 bits only.
+// The contract `lehmer_ok` (lib/lehmer_spec.rs) says: `from(a, b)` for a >= b returns either the identity or a cofactor matrix
+// that maps (a, b) exactly (over the integers) to a later pair (c, d) of a remainder sequence (0 <= d <= c <= a, d < b, same
+// gcd), has determinant +1 / -1 according to .4, top row elementwise below its bottom row and entries not above a.
+// This is the last sentence of property C12 plus the cofactor shape. It is PROVED: unit lehmer (IDENTITY, from_u64, apply, and
+// `from`'s dispatch over the bit length) and unit jebelean (from_u64_prefix with Jebelean's exactness conditions, from_u128_prefix).
+// What remains assumed is only the derived `==` on Matrix (structural equality).
 impl PartialEqSpecImpl for Matrix {
     open spec fn obeys_eq_spec() -> bool { true }
     open spec fn eq_spec(&self, other: &Self) -> bool { *self == *other }
@@ -15,11 +14,4 @@ impl PartialEq for Matrix {
     // derived
     #[verifier::external_body]
     fn eq(&self, other: &Self) -> (r: bool) { unimplemented!() }
-}
-impl Matrix {
-    #[verifier::external_body]
-    pub fn from<const BITS: usize, const LIMBS: usize>(a: Uint<BITS, LIMBS>, b: Uint<BITS, LIMBS>) -> (m: Self)
-        requires a.wf(), b.wf(), a.val() >= b.val()
-        ensures !is_identity(m) ==> lehmer_ok(m, a.val() as int, b.val() as int)
-    { unimplemented!() }
 }
